@@ -17,6 +17,8 @@
 import SlicecVerif.Lemmas.Layout
 import SlicecVerif.Lemmas.SliceLexerLocLayout
 import SlicecVerif.Lemmas.SliceLexerLocItems
+import SlicecVerif.Lemmas.CommentLoc
+import SlicecVerif.Lemmas.CommentDocLoc
 
 namespace Slicec.C09
 
@@ -392,6 +394,412 @@ example : (render 1 45 exItems3).2.map (fun s => (s.path, s.start, s.stop)) =
 /-- `fileOk` alone does not make spans start at tokens: a directive may carry a blank (`fileTight` excludes it) -/
 example : attrOk ⟨" a", []⟩ = true ∧ attrTight ⟨" a", []⟩ = false := by decide
 
+/-! ## Third part: the COMMENT lexer with locations (slicec/src/parsers/comments/lexer.rs)
+
+  Model/CommentLoc.lean: `switch_to_next_line` (cursor := the start of the span the line came with, i.e. the position
+  right after `///`), `advance_buffer` (one column per consumed character, whatever it is), the `(start, kind, end)` of
+  every arm of `lex_message` / `lex_tag_component` / `read_tag_keyword` / `Iterator::next`. Tied to the real lexer by
+  stream `C09clex`. The theorems quantify over EVERY list of lines: any texts, any rows (consecutive or not), any start
+  columns; the only place where rows matter is the order of tokens of different lines (`comment_stream_ordered`). -/
+
+open Slicec.CLoc
+
+/-- **Erasure.** Forgetting the locations of the located comment lexer gives exactly the comment-lexer model of C16
+    (`Model/Comment.lean lexComment`: same tokens, same error), for every list of lines and whatever their spans:
+    the two models cannot drift apart. -/
+theorem comment_lexer_locations_erase (ls : List CLine) :
+    (lexCommentLoc ls).erase = lexComment (ls.map (·.text)) :=
+  lexCommentLoc_erase ls
+
+/-- **Cursor accounting, scanning loops.** `skip_whitespace`, `read_identifier` and the text loop move the cursor by one
+    column per consumed character — tabs, CR, multi-byte and astral characters alike — and never touch the row. -/
+theorem comment_cursor_counts_characters (p : Char → Bool) (cur : Loc) (cs : Str) :
+    cadvWhile p cur cs = ⟨cur.row, cur.col + (cs.takeWhile p).length⟩ :=
+  cadvWhile_eq p cur cs
+
+/-- **Cursor accounting, one call in `Message` mode.** On a non-empty buffer `lex_message` consumes a non-empty prefix
+    `mid` of the buffer; the token it returns starts at the cursor on entry, ends `mid.length` columns further, which is
+    also the cursor after the call, and `mid` is what the token spells (the `Text`'s payload, or `{` + the blanks in front
+    of the `@` of an inline tag). -/
+theorem comment_message_call_located (cur : Loc) (c : Char) (cs : Str) :
+    ∃ mid, c :: cs = mid ++ (lexMessageLoc cur (c :: cs)).2.2.1 ∧ mid ≠ [] ∧
+      (lexMessageLoc cur (c :: cs)).1.start = cur ∧
+      (lexMessageLoc cur (c :: cs)).1.stop = ⟨cur.row, cur.col + mid.length⟩ ∧
+      (lexMessageLoc cur (c :: cs)).2.2.2 = (lexMessageLoc cur (c :: cs)).1.stop ∧
+      cspells (lexMessageLoc cur (c :: cs)).1.tok mid (lexMessageLoc cur (c :: cs)).2.2.1 := by
+  obtain ⟨mid, h1, h2, h3, h4, h5, _, h7⟩ := lexMessageLoc_spec cur c cs
+  exact ⟨mid, h1, h7, h2, h3, by rw [h4, h3], h5⟩
+
+/-- **Cursor accounting, one call in `BlockTag` / `InlineTag` mode** (`lex_tag_component`), for every buffer:
+    * nothing but whitespace left: the cursor ends behind all of it;
+    * a token: the buffer is `ws ++ mid ++ rest` with `ws` the skipped whitespace; the token starts `ws.length` columns
+      behind the cursor on entry, ends `mid.length` columns further — the cursor after the call —, and `mid` (non-empty)
+      is its spelling: `@` + keyword, the identifier, `::`, `:`, `}`;
+    * an error: likewise located over `@` + the unknown / missing / misplaced tag, or over the one unknown symbol. -/
+theorem comment_tag_call_located (mode : LMode) (cur : Loc) (cs : Str) :
+    match lexTagComponentLoc mode cur cs with
+    | .eol cur' => cs.all isWsC = true ∧ cur' = ⟨cur.row, cur.col + cs.length⟩
+    | .tok t _ rest cur' => ∃ ws mid, cs = ws ++ (mid ++ rest) ∧ ws.all isWsC = true ∧ mid ≠ [] ∧
+        t.start = ⟨cur.row, cur.col + ws.length⟩ ∧ t.stop = ⟨cur.row, cur.col + (ws.length + mid.length)⟩ ∧
+        cur' = t.stop ∧ cspells t.tok mid rest
+    | .err e => ∃ ws mid post, cs = ws ++ (mid ++ post) ∧ ws.all isWsC = true ∧
+        e.start = ⟨cur.row, cur.col + ws.length⟩ ∧ e.stop = ⟨cur.row, cur.col + (ws.length + mid.length)⟩ ∧
+        cerrSpells e.err mid post := by
+  have h := lexTagComponentLoc_spec mode cur cs
+  cases hL : lexTagComponentLoc mode cur cs with
+  | eol cur' => rw [hL] at h; exact h
+  | tok t m rest cur' =>
+    rw [hL] at h
+    obtain ⟨ws, mid, h1, h2, h3, h4, h5, h6, _, h8⟩ := h
+    exact ⟨ws, mid, h1, h2, h8, h3, h4, h5, h6⟩
+  | err e => rw [hL] at h; exact h
+
+/-- **The tokens of a line tile the line.** For every line (any text, any span): the tokens, and the error that ends them
+    if there is one, lie one behind the other on the line; between the end of one and the start of the next there is
+    nothing but whitespace; each covers exactly the characters it spells, one column per character, counted from the
+    start of the line's span (`Tiled`: recursively, the next element is sought in what the previous one left). -/
+theorem comment_line_tiled (l : CLine) :
+    Tiled l.start l.text (lexOneLineLoc l).toks (lexOneLineLoc l).err :=
+  lexOneLineLoc_tiled l
+
+/-- **In order, without overlap** (one line): every token is on the row of its line, starts at or behind the line's start
+    column, ends at or behind its own start, and every later token of the line starts at or behind its end. -/
+theorem comment_line_tokens_ordered (l : CLine) :
+    (∀ t ∈ (lexOneLineLoc l).toks, t.start.row = l.start.row ∧ t.stop.row = l.start.row ∧
+        l.start.col ≤ t.start.col ∧ t.start.col ≤ t.stop.col) ∧
+    (lexOneLineLoc l).toks.Pairwise (fun a b => a.stop.row = b.start.row ∧ a.stop.col ≤ b.start.col) :=
+  ⟨(lexOneLineLoc_tiled l).ordered.all, (lexOneLineLoc_tiled l).ordered.pairwise⟩
+
+/-- **Every token lies within the line it was lexed from, over its spelling.** For every list of lines and every token
+    `t` of the stream there is a line `l` of the comment with `l.text = pre ++ mid ++ post` such that `t` starts at
+    character offset `pre.length` of `l` and ends at offset `pre.length + mid.length` (on `l`'s row, columns counted in
+    characters from the start of `l`'s span), and `mid` is what `t` spells: an identifier or a text its payload, a keyword
+    `@` + the row of the table extracted from `read_tag_keyword`, `{` (with the blanks in front of `@link`), `}`, `:`,
+    `::`, and a `Newline` the empty text with nothing behind it. -/
+theorem comment_token_in_its_line (ls : List CLine) (t : LCTok) (ht : t ∈ (lexCommentLoc ls).toks) :
+    ∃ l ∈ ls, ∃ pre mid post, l.text = pre ++ (mid ++ post) ∧
+      t.start = l.at pre.length ∧ t.stop = l.at (pre.length + mid.length) ∧ cspells t.tok mid post := by
+  obtain ⟨l, hl, ht'⟩ := lexCommentLoc_tok_line ls t ht
+  obtain ⟨pre, mid, post, h1, h2, h3, h4⟩ := (lexOneLineLoc_tiled l).mem ht'
+  exact ⟨l, hl, pre, mid, post, h1, h2, h3, h4⟩
+
+/-- **The same in numbers**: row = the line's row, line start column ≤ start column ≤ end column ≤ line start column +
+    number of characters of the line; 1-based whenever the line's span is. -/
+theorem comment_token_within_line (ls : List CLine) (t : LCTok) (ht : t ∈ (lexCommentLoc ls).toks) :
+    ∃ l ∈ ls, t.start.row = l.start.row ∧ t.stop.row = l.start.row ∧
+      l.start.col ≤ t.start.col ∧ t.start.col ≤ t.stop.col ∧ t.stop.col ≤ l.start.col + l.text.length ∧
+      (1 ≤ l.start.row ∧ 1 ≤ l.start.col → 1 ≤ t.start.row ∧ 1 ≤ t.start.col) := by
+  obtain ⟨l, hl, pre, mid, post, h1, h2, h3, _⟩ := comment_token_in_its_line ls t ht
+  have hlen : l.text.length = pre.length + (mid.length + post.length) := by rw [h1]; simp
+  refine ⟨l, hl, by rw [h2]; rfl, by rw [h3]; rfl, by rw [h2]; simp [CLine.at], by rw [h2, h3]; simp [CLine.at],
+    by rw [h3]; simp only [CLine.at]; omega, ?_⟩
+  intro hp
+  rw [h2]
+  simp only [CLine.at]
+  omega
+
+/-- **A lexer error is located in the line that has it, over the offending characters**: the unknown symbol (one
+    character, however many bytes), `@` + the unknown / misplaced tag, the lone `@`, or — `UnterminatedInlineTag` — the
+    empty text at the end of the line. -/
+theorem comment_error_in_its_line (ls : List CLine) (e : LCErr) (he : (lexCommentLoc ls).err = some e) :
+    ∃ l ∈ ls, ∃ pre mid post, l.text = pre ++ (mid ++ post) ∧
+      e.start = l.at pre.length ∧ e.stop = l.at (pre.length + mid.length) ∧ cerrSpells e.err mid post := by
+  obtain ⟨l, hl, he'⟩ := lexCommentLoc_err_line ls e he
+  have h := lexOneLineLoc_tiled l
+  rw [he'] at h
+  obtain ⟨pre, mid, post, h1, h2, h3, h4⟩ := h.err_mem
+  exact ⟨l, hl, pre, mid, post, h1, h2, h3, h4⟩
+
+/-- **The `Newline` of a line is the zero-width position at that line's end.** A line that lexes without error yields
+    tokens none of which is a `Newline`, followed by exactly one `Newline` whose start and end are the location behind
+    the last character of THAT line (`l.endLoc`: the line's row, start column + number of characters) — not the start of
+    the following line. A line with a lexer error yields no `Newline`. -/
+theorem comment_newline_at_line_end (l : CLine) :
+    match (lexOneLineLoc l).err with
+    | none => ∃ init, (lexOneLineLoc l).toks = init ++ [⟨l.endLoc, .newline, l.endLoc⟩] ∧ ∀ t ∈ init, t.tok ≠ .newline
+    | some _ => ∀ t ∈ (lexOneLineLoc l).toks, t.tok ≠ .newline :=
+  lexOneLineLoc_shape l
+
+/-- **All `Newline`s of a comment**: they are, in order, the ends of the comment's lines — of all of them when the comment
+    lexes without error, otherwise of the lines in front of the one with the error (`cleanLines`). -/
+theorem comment_newlines_are_line_ends (ls : List CLine) :
+    (lexCommentLoc ls).toks.filter isNl = (ls.take (cleanLines ls)).map (fun l => ⟨l.endLoc, .newline, l.endLoc⟩) ∧
+    ((lexCommentLoc ls).err = none ↔ cleanLines ls = ls.length) ∧
+    ((lexCommentLoc ls).err = none →
+      (lexCommentLoc ls).toks.filter isNl = ls.map (fun l => ⟨l.endLoc, .newline, l.endLoc⟩)) := by
+  refine ⟨lexCommentLoc_newlines ls, lexCommentLoc_err_none_iff ls, ?_⟩
+  intro h
+  rw [lexCommentLoc_newlines, (lexCommentLoc_err_none_iff ls).mp h, List.take_length]
+  rfl
+
+/-- **The whole stream is in order.** When the lines sit on increasing rows (consecutive or not; any columns), every token
+    ends at or before the start of every later token, and the error, if there is one, lies behind all tokens. -/
+theorem comment_stream_ordered (ls : List CLine) (hrows : ls.Pairwise (fun a b => a.start.row < b.start.row)) :
+    (lexCommentLoc ls).toks.Pairwise (fun a b => a.stop.le b.start) ∧
+    ∀ e, (lexCommentLoc ls).err = some e → ∀ t ∈ (lexCommentLoc ls).toks, t.stop.le e.start :=
+  lexCommentLoc_ordered ls hrows
+
+/-! non-vacuity: a three-line comment on non-consecutive rows with different start columns — an overview with a
+    multi-byte and an astral character and an inline link written with blanks, a `@param` line indented with a tab and
+    U+3000, a `@see` line with a scoped identifier and trailing blanks. Every `Newline` sits at the end of ITS line. -/
+def exComment : List CLine :=
+  [⟨" é😀 {  @link A::B} x".toList, ⟨3, 8⟩, ⟨3, 28⟩⟩,
+   ⟨"\t　@param p :\tm✓".toList, ⟨4, 8⟩, ⟨4, 23⟩⟩,
+   ⟨"@see ::X  ".toList, ⟨7, 4⟩, ⟨7, 14⟩⟩]
+example : lexCommentLoc exComment =
+    ⟨[⟨⟨3, 8⟩, .text " é😀 ".toList, ⟨3, 12⟩⟩, ⟨⟨3, 12⟩, .lbrace, ⟨3, 15⟩⟩, ⟨⟨3, 15⟩, .kw .LinkKeyword, ⟨3, 20⟩⟩,
+      ⟨⟨3, 21⟩, .ident ['A'], ⟨3, 22⟩⟩, ⟨⟨3, 22⟩, .dcolon, ⟨3, 24⟩⟩, ⟨⟨3, 24⟩, .ident ['B'], ⟨3, 25⟩⟩, ⟨⟨3, 25⟩, .rbrace, ⟨3, 26⟩⟩,
+      ⟨⟨3, 26⟩, .text " x".toList, ⟨3, 28⟩⟩, ⟨⟨3, 28⟩, .newline, ⟨3, 28⟩⟩,
+      ⟨⟨4, 10⟩, .kw .ParamKeyword, ⟨4, 16⟩⟩, ⟨⟨4, 17⟩, .ident ['p'], ⟨4, 18⟩⟩, ⟨⟨4, 19⟩, .colon, ⟨4, 20⟩⟩,
+      ⟨⟨4, 20⟩, .text "\tm✓".toList, ⟨4, 23⟩⟩, ⟨⟨4, 23⟩, .newline, ⟨4, 23⟩⟩,
+      ⟨⟨7, 4⟩, .kw .SeeKeyword, ⟨7, 8⟩⟩, ⟨⟨7, 9⟩, .dcolon, ⟨7, 11⟩⟩, ⟨⟨7, 11⟩, .ident ['X'], ⟨7, 12⟩⟩,
+      ⟨⟨7, 14⟩, .newline, ⟨7, 14⟩⟩], none⟩ := by decide
+example : exComment.map (·.endLoc) = [⟨3, 28⟩, ⟨4, 23⟩, ⟨7, 14⟩] := by decide
+example : exComment.Pairwise (fun a b => a.start.row < b.start.row) := by decide
+/-- located errors: an unknown astral symbol is one column wide; an unknown tag runs from its `@` to the end of the tag; an
+    inline tag left open is reported at the end of its line (behind the trailing blanks), zero-width; the lines in front
+    of the error have their `Newline`s, the line with the error has none -/
+example : lexCommentLoc [⟨" ok".toList, ⟨1, 4⟩, ⟨1, 7⟩⟩, ⟨"@param x 😀 y".toList, ⟨2, 4⟩, ⟨2, 16⟩⟩] =
+    ⟨[⟨⟨1, 4⟩, .text " ok".toList, ⟨1, 7⟩⟩, ⟨⟨1, 7⟩, .newline, ⟨1, 7⟩⟩, ⟨⟨2, 4⟩, .kw .ParamKeyword, ⟨2, 10⟩⟩, ⟨⟨2, 11⟩, .ident ['x'], ⟨2, 12⟩⟩],
+     some ⟨⟨2, 13⟩, .unknownSymbol '😀', ⟨2, 14⟩⟩⟩ := by decide
+example : (lexCommentLoc [⟨"  @foo_1 x".toList, ⟨9, 30⟩, ⟨9, 40⟩⟩]).err = some ⟨⟨9, 32⟩, .unknownTag "foo_1".toList, ⟨9, 38⟩⟩ := by decide
+example : (lexCommentLoc [⟨"a {@link X  ".toList, ⟨2, 6⟩, ⟨2, 18⟩⟩]).err = some ⟨⟨2, 18⟩, .unterminatedInlineTag, ⟨2, 18⟩⟩ := by decide
+example : cleanLines [⟨" ok".toList, ⟨1, 4⟩, ⟨1, 7⟩⟩, ⟨"@param x 😀 y".toList, ⟨2, 4⟩, ⟨2, 16⟩⟩, ⟨"z".toList, ⟨3, 4⟩, ⟨3, 5⟩⟩] = 1 := by decide
+/-- `cspells` / `cerrSpells` are not vacuous -/
+example : cspells (.kw .ParamKeyword) "@param".toList " p".toList ∧ cspells .lbrace "{  ".toList "@link A}".toList ∧
+    cspells .newline [] [] ∧ ¬ cspells .newline [] ['x'] ∧ cerrSpells (.unknownTag "foo".toList) "@foo".toList [] := by
+  refine ⟨⟨"param".toList, false, by decide, by decide⟩, ⟨"  ".toList, by decide, by decide, by decide⟩, ⟨rfl, rfl⟩, ?_, by show "@foo".toList = _; decide⟩
+  intro h; exact absurd h.2 (by decide)
+
+/-! ## Fourth part: the spans of the parts of a doc comment and of the comment lints
+
+  Model/CommentDocLoc.lean: the comment parser on the located token stream (`@L` / `@R` of every production of
+  comments/grammar.lalrpop, `create_doc_comment`, `append_tag_to_comment!`, the three outcomes of `construct_lint_from`) and
+  the spans the validators / the link patcher report (`elemLintsLoc`). Tied to the real parser and to whole compilations
+  by streams `C09doc` / `C09docp`; what is PROVED here, for every list of lines: all these spans are made of token
+  boundaries of the comment's own token stream, hence (third part) lie within the comment's lines. -/
+
+/-- `l` lies within a line of the comment: on the line's row, between the start of its span and the position behind its
+    last character (columns counted in characters) -/
+def InLines (lines : List CLine) (l : Loc) : Prop :=
+  ∃ L ∈ lines, l.row = L.start.row ∧ L.start.col ≤ l.col ∧ l.col ≤ L.start.col + L.text.length
+
+/-- a token boundary of the comment's stream lies within a line of the comment -/
+theorem token_boundary_in_lines (lines : List CLine) (l : Loc) (h : Bnd (lexCommentLoc lines).toks l) : InLines lines l := by
+  obtain ⟨t, ht, hl⟩ := h
+  obtain ⟨L, hL, a, b, c, d, e, _⟩ := comment_token_within_line lines t ht
+  refine ⟨L, hL, ?_⟩
+  cases hl with
+  | inl h => rw [h]; exact ⟨a, c, by omega⟩
+  | inr h => rw [h]; exact ⟨b, by omega, e⟩
+
+/-- **The parts of a parsed comment are made of token boundaries.** For every comment the parser model accepts: the token
+    stream is not empty, the comment's span starts three columns left of the START OF ITS FIRST TOKEN (whatever that token
+    is: the text of the first line from the column behind `///` on, or — first line a tag — the `@` behind the blanks), and
+    the comment's end and both ends of the span of every part (overview, every tag, tag identifier, message, inline link,
+    link identifier, see tag) are the start or the end of a token of the comment's located token stream. -/
+theorem doc_parts_are_token_boundaries (lines : List CLine) (d : LDoc) (h : parseCommentLoc lines = .ok d) :
+    ∃ t0 ts, (lexCommentLoc lines).toks = t0 :: ts ∧ 3 ≤ t0.start.col ∧
+      d.span.start = ⟨t0.start.row, t0.start.col - 3⟩ ∧ DocPartsOk (lexCommentLoc lines).toks d :=
+  parseCommentLocG_ok _ lines d h
+
+/-- **The parts of a doc comment lie within that comment's lines.** For every list of lines (any texts, rows, columns) and
+    every comment `d` the parser model builds from them: both ends of the span of every part, and the comment's own end,
+    lie within a line of the comment; the comment's own start lies three columns left of such a position (it is the
+    position of the `///` exactly when the first token starts right behind the `///`). -/
+theorem doc_parts_within_lines (lines : List CLine) (d : LDoc) (h : parseCommentLoc lines = .ok d) :
+    (∀ s ∈ d.partSpans, InLines lines s.start ∧ InLines lines s.stop) ∧ InLines lines d.span.stop ∧
+    InLines lines ⟨d.span.start.row, d.span.start.col + 3⟩ := by
+  obtain ⟨t0, ts, h1, h2, h3, h4⟩ := doc_parts_are_token_boundaries lines d h
+  obtain ⟨k0, k1, k2, k3, k4⟩ := h4
+  have hall : ∀ s ∈ d.partSpans, SpOk (lexCommentLoc lines).toks s := by
+    intro s hs
+    simp only [LDoc.partSpans, List.mem_append, List.mem_flatMap] at hs
+    rcases hs with ((hs | hs) | hs) | hs
+    · cases ho : d.overview with
+      | none => rw [ho] at hs; cases hs
+      | some m => rw [ho] at hs; exact msgOk_spans (k1 m ho) s hs
+    · obtain ⟨t, ht, hs⟩ := hs; exact tagOk_spans (k2 t ht) s hs
+    · obtain ⟨t, ht, hs⟩ := hs; exact tagOk_spans (k3 t ht) s hs
+    · obtain ⟨l, hl, hs⟩ := hs
+      simp only [List.mem_cons, List.not_mem_nil, or_false] at hs
+      cases hs with
+      | inl h2 => rw [h2]; exact (k4 l hl).1
+      | inr h2 => rw [h2]; exact (k4 l hl).2
+  refine ⟨fun s hs => ⟨token_boundary_in_lines lines _ (hall s hs).1, token_boundary_in_lines lines _ (hall s hs).2⟩,
+    token_boundary_in_lines lines _ k0, ?_⟩
+  have : (⟨d.span.start.row, d.span.start.col + 3⟩ : Loc) = t0.start := by
+    have hc : t0.start.col - 3 + 3 = t0.start.col := by omega
+    rw [h3]; simp only [hc]
+  rw [this]
+  exact token_boundary_in_lines lines _ ⟨t0, by rw [h1]; simp, Or.inl rfl⟩
+
+/-- **A rejected comment is reported inside the comment.** When the parser model rejects a comment at a span `s` (the span
+    the `MalformedDocComment` lint carries), `s` is the extent of a token of the comment's stream — the first token no
+    production can take — or the extent of the lexer's error; in both cases it lies on one row, start ≤ end, within a line
+    of the comment. -/
+theorem malformed_lint_points_into_comment (lines : List CLine) (s : Sp) (h : parseCommentLoc lines = .fail (.at s)) :
+    ((∃ t ∈ (lexCommentLoc lines).toks, s = ⟨t.start, t.stop⟩) ∨ (∃ e, (lexCommentLoc lines).err = some e ∧ s = ⟨e.start, e.stop⟩)) ∧
+    InLines lines s.start ∧ InLines lines s.stop ∧ s.start.row = s.stop.row ∧ s.start.col ≤ s.stop.col := by
+  have hf := parseCommentLocG_fail _ lines _ h
+  refine ⟨hf, ?_⟩
+  cases hf with
+  | inl x =>
+    obtain ⟨t, ht, hs⟩ := x
+    obtain ⟨L, hL, a, b, c, d, e, _⟩ := comment_token_within_line lines t ht
+    subst hs
+    exact ⟨⟨L, hL, a, c, by simp only; omega⟩, ⟨L, hL, b, by simp only; omega, e⟩, by simp only; omega, d⟩
+  | inr x =>
+    obtain ⟨e, he, hs⟩ := x
+    obtain ⟨L, hL, pre, mid, post, h1, h2, h3, _⟩ := comment_error_in_its_line lines e he
+    have hlen : L.text.length = pre.length + (mid.length + post.length) := by rw [h1]; simp
+    subst hs
+    refine ⟨⟨L, hL, ?_, ?_, ?_⟩, ⟨L, hL, ?_, ?_, ?_⟩, ?_, ?_⟩ <;> simp only [h2, h3, CLine.at] <;> omega
+
+/-- **The parser never runs out of tokens.** For every list of lines the parser model either accepts, or rejects AT A SPAN
+    (`UnrecognizedEof`, the one outcome of `construct_lint_from` that has only a position, cannot occur): without lexer error
+    the stream ends in the `Newline` of its last line, behind which every production can be completed, and what the
+    sub-parsers for identifiers and message components consume contains no `Newline`. -/
+theorem parser_never_at_eof (lines : List CLine) : parseCommentLoc lines ≠ .fail .eof :=
+  parseCommentLocG_not_eof _ lines
+
+/-- **Every comment lint points into the comment.** For every element, name table and list of lines: each lint the model
+    reports for the element's comment — `MalformedDocComment`, `BrokenDocLink` (the identifier of the link that does not
+    resolve), `IncorrectDocComment` (the tag, or tag + message) — has a span both ends of which lie within a line of THAT
+    comment. -/
+theorem doc_lint_spans_within_lines (t : Table) (e : DocElem) (lines : List CLine)
+    (l : LLint) (hl : l ∈ elemLintsLoc t e (parseCommentLoc lines)) :
+    InLines lines l.span.start ∧ InLines lines l.span.stop := by
+  unfold elemLintsLoc at hl
+  cases hr : parseCommentLoc lines with
+  | panic s => rw [hr] at hl; cases hl
+  | fail f =>
+    rw [hr] at hl
+    cases f with
+    | eof => exact absurd hr (parser_never_at_eof lines)
+    | «at» s =>
+      simp only [List.mem_cons, List.not_mem_nil, or_false] at hl
+      obtain ⟨_, a, b, _, _⟩ := malformed_lint_points_into_comment lines s hr
+      rw [hl]; exact ⟨a, b⟩
+  | ok c =>
+    rw [hr] at hl
+    obtain ⟨hparts, _, _⟩ := doc_parts_within_lines lines c hr
+    simp only [List.mem_append, List.mem_map, List.mem_filter] at hl
+    cases hl with
+    | inl h1 =>
+      obtain ⟨lk, ⟨hlk, _⟩, hs⟩ := h1
+      rw [← hs]
+      -- a link of the comment: its identifier span is a part span
+      have : lk.idSpan ∈ c.partSpans := by
+        simp only [LDoc.allLinks, List.mem_append, List.mem_flatMap] at hlk
+        simp only [LDoc.partSpans, List.mem_append, List.mem_flatMap]
+        rcases hlk with ((hk | hk) | hk) | hk
+        · left; left; left
+          cases ho : c.overview with
+          | none => rw [ho] at hk; cases hk
+          | some m => rw [ho] at hk; exact link_id_mem_msg_spans hk
+        · left; left; right
+          obtain ⟨tg, ht, hk⟩ := hk
+          exact ⟨tg, ht, msg_spans_sub_tag (link_id_mem_msg_spans hk)⟩
+        · left; right
+          obtain ⟨tg, ht, hk⟩ := hk
+          exact ⟨tg, ht, msg_spans_sub_tag (link_id_mem_msg_spans hk)⟩
+        · right
+          exact ⟨lk, hk, by simp⟩
+      exact hparts _ this
+    | inr h1 =>
+      obtain ⟨s, hs, hl⟩ := h1
+      rw [← hl]
+      -- an ill-fitting tag: its span, or its span + its message's span
+      have htag : ∀ tg, (tg ∈ c.params ∨ tg ∈ c.returns) → (InLines lines tg.span.start ∧ InLines lines tg.span.stop) ∧
+          (InLines lines tg.withMessage.start ∧ InLines lines tg.withMessage.stop) := by
+        intro tg htg
+        have h1 : tg.span ∈ c.partSpans := by
+          simp only [LDoc.partSpans, List.mem_append, List.mem_flatMap]
+          cases htg with
+          | inl h => exact Or.inl (Or.inl (Or.inr ⟨tg, h, tag_span_mem tg⟩))
+          | inr h => exact Or.inl (Or.inr ⟨tg, h, tag_span_mem tg⟩)
+        have h2 : tg.message.span ∈ c.partSpans := by
+          simp only [LDoc.partSpans, List.mem_append, List.mem_flatMap]
+          cases htg with
+          | inl h => exact Or.inl (Or.inl (Or.inr ⟨tg, h, tag_msg_span_mem tg⟩))
+          | inr h => exact Or.inl (Or.inr ⟨tg, h, tag_msg_span_mem tg⟩)
+        refine ⟨hparts _ h1, ?_⟩
+        obtain ⟨e1, e2⟩ := Sp.add_ends tg.span tg.message.span
+        unfold LTag.withMessage
+        constructor
+        · cases e1 with
+          | inl h => rw [h]; exact (hparts _ h1).1
+          | inr h => rw [h]; exact (hparts _ h2).1
+        · cases e2 with
+          | inl h => rw [h]; exact (hparts _ h1).2
+          | inr h => rw [h]; exact (hparts _ h2).2
+      unfold illFittingSpans at hs
+      split at hs
+      · simp only [List.mem_append, List.mem_map] at hs
+        rcases hs with ⟨tg, ht, rfl⟩ | ⟨tg, ht, rfl⟩
+        · exact (htag tg (Or.inl ht)).2
+        · exact (htag tg (Or.inr ht)).2
+      · simp only [List.mem_map] at hs
+        obtain ⟨tg, ht, rfl⟩ := hs
+        exact (htag tg (Or.inr ht)).2
+      · simp only [List.mem_append, List.mem_map, List.mem_filter] at hs
+        rcases hs with ⟨tg, ⟨ht, _⟩, rfl⟩ | hs
+        · exact (htag tg (Or.inl ht)).1
+        · split at hs
+          · simp only [List.mem_map] at hs
+            obtain ⟨tg, ht, rfl⟩ := hs
+            exact (htag tg (Or.inr ht)).2
+          · simp only [List.mem_map, List.mem_filter] at hs
+            obtain ⟨tg, ⟨ht, _⟩, rfl⟩ := hs
+            exact (htag tg (Or.inr ht)).1
+          · simp only [List.mem_map, List.mem_filter] at hs
+            obtain ⟨tg, ⟨ht, _⟩, rfl⟩ := hs
+            exact (htag tg (Or.inr ht)).1
+
+/-! non-vacuity: a six-line comment behind other tokens (text from column 8, the last line from column 4, a row skipped) with
+    an overview over two lines containing a multi-byte and an astral character and an inline link, a `@param` with blanks
+    in front of its colon and a continuation line, a `@returns` without identifier and with blanks in front of its colon
+    (its span 7:9–7:19 includes them), a `@see` with a global scoped identifier. The comment's span and the spans of all
+    its parts, in the order of `partSpans`. -/
+def exDoc : List CLine :=
+  [⟨" Overview é😀 {@link A::B}.".toList, ⟨3, 8⟩, ⟨3, 32⟩⟩,
+   ⟨"   more".toList, ⟨4, 8⟩, ⟨4, 15⟩⟩,
+   ⟨" @param p : the p".toList, ⟨5, 8⟩, ⟨5, 25⟩⟩,
+   ⟨"    continued".toList, ⟨6, 8⟩, ⟨6, 21⟩⟩,
+   ⟨" @returns  : r".toList, ⟨7, 8⟩, ⟨7, 22⟩⟩,
+   ⟨" @see ::X::Y".toList, ⟨9, 4⟩, ⟨9, 16⟩⟩]
+def spansOf (r : LRes LDoc) : Option (Sp × List Sp) := match r with | .ok d => some (d.span, d.partSpans) | _ => none
+set_option maxRecDepth 20000 in
+example : spansOf (parseCommentLoc exDoc) = some (⟨⟨3, 5⟩, ⟨9, 16⟩⟩,
+  [⟨⟨3, 8⟩, ⟨4, 15⟩⟩, ⟨⟨3, 22⟩, ⟨3, 32⟩⟩, ⟨⟨3, 28⟩, ⟨3, 32⟩⟩, ⟨⟨5, 9⟩, ⟨5, 17⟩⟩, ⟨⟨5, 16⟩, ⟨5, 17⟩⟩, ⟨⟨5, 18⟩, ⟨6, 21⟩⟩,
+   ⟨⟨7, 9⟩, ⟨7, 19⟩⟩, ⟨⟨7, 19⟩, ⟨7, 22⟩⟩, ⟨⟨9, 5⟩, ⟨9, 16⟩⟩, ⟨⟨9, 10⟩, ⟨9, 16⟩⟩]) := by decide
+/-! the first line is a tag behind three blanks (`///   @param a: x`, `///` at 2:1): the comment's span starts at column 4 —
+    three columns left of the `@` (column 7), not at the `///` (column 1); the message of the tag ends at the end of the
+    LAST line of the comment (3:6), the comment itself at the end of the tag's identifier (2:15) -/
+set_option maxRecDepth 20000 in
+example : spansOf (parseCommentLoc [⟨"   @param a: x".toList, ⟨2, 4⟩, ⟨2, 18⟩⟩, ⟨" y".toList, ⟨3, 4⟩, ⟨3, 6⟩⟩]) =
+    some (⟨⟨2, 4⟩, ⟨2, 15⟩⟩, [⟨⟨2, 7⟩, ⟨2, 15⟩⟩, ⟨⟨2, 14⟩, ⟨2, 15⟩⟩, ⟨⟨2, 15⟩, ⟨3, 6⟩⟩]) := by decide
+/-! rejected comments: `@param` without a name is reported at the zero-width `Newline` at the end of ITS line (3:10), not on
+    the following line; text behind a `@see` line at that text; an inline tag left open at the end of its line -/
+set_option maxRecDepth 20000 in
+example : parseCommentLoc [⟨" ov".toList, ⟨2, 4⟩, ⟨2, 7⟩⟩, ⟨"@param".toList, ⟨3, 4⟩, ⟨3, 10⟩⟩, ⟨"@returns: x".toList, ⟨4, 4⟩, ⟨4, 15⟩⟩] =
+    .fail (.at ⟨⟨3, 10⟩, ⟨3, 10⟩⟩) := by decide
+set_option maxRecDepth 20000 in
+example : parseCommentLoc [⟨" ov".toList, ⟨2, 4⟩, ⟨2, 7⟩⟩, ⟨"@see X".toList, ⟨3, 4⟩, ⟨3, 10⟩⟩, ⟨" text".toList, ⟨4, 4⟩, ⟨4, 9⟩⟩] =
+    .fail (.at ⟨⟨4, 4⟩, ⟨4, 9⟩⟩) := by decide
+set_option maxRecDepth 20000 in
+example : parseCommentLoc [⟨" a {@link X".toList, ⟨2, 4⟩, ⟨2, 15⟩⟩] = .fail (.at ⟨⟨2, 15⟩, ⟨2, 15⟩⟩) := by decide
+/-! lints on a struct: the identifiers of the links (where `BrokenDocLink` is reported when a link does not resolve) and
+    the `IncorrectDocComment` of the `@returns` tag, tag + message = 4:5–4:29 — ending on the tag's own line although
+    another line follows -/
+set_option maxRecDepth 20000 in
+example : (match parseCommentLoc [⟨" {@link Nope}".toList, ⟨3, 4⟩, ⟨3, 17⟩⟩, ⟨" @returns: nothing at all".toList, ⟨4, 4⟩, ⟨4, 29⟩⟩,
+                                  ⟨" @see Other".toList, ⟨5, 4⟩, ⟨5, 15⟩⟩] with
+           | .ok c => some (c.allLinks.map (·.idSpan), illFittingSpans .other c)
+           | _ => none) =
+    some ([⟨⟨3, 12⟩, ⟨3, 16⟩⟩, ⟨⟨5, 10⟩, ⟨5, 15⟩⟩], [⟨⟨4, 5⟩, ⟨4, 29⟩⟩]) := by decide
+
 end Slicec.C09
 
 #print axioms Slicec.C09.advance_fold
@@ -418,3 +826,21 @@ end Slicec.C09
 #print axioms Slicec.C09.tight_directives_with_identifier_segments
 #print axioms Slicec.C09.spans_are_token_extents
 #print axioms Slicec.C09.span_starts_and_ends_at_tokens
+#print axioms Slicec.C09.comment_lexer_locations_erase
+#print axioms Slicec.C09.comment_cursor_counts_characters
+#print axioms Slicec.C09.comment_message_call_located
+#print axioms Slicec.C09.comment_tag_call_located
+#print axioms Slicec.C09.comment_line_tiled
+#print axioms Slicec.C09.comment_line_tokens_ordered
+#print axioms Slicec.C09.comment_token_in_its_line
+#print axioms Slicec.C09.comment_token_within_line
+#print axioms Slicec.C09.comment_error_in_its_line
+#print axioms Slicec.C09.comment_newline_at_line_end
+#print axioms Slicec.C09.comment_newlines_are_line_ends
+#print axioms Slicec.C09.comment_stream_ordered
+#print axioms Slicec.C09.token_boundary_in_lines
+#print axioms Slicec.C09.doc_parts_are_token_boundaries
+#print axioms Slicec.C09.doc_parts_within_lines
+#print axioms Slicec.C09.malformed_lint_points_into_comment
+#print axioms Slicec.C09.parser_never_at_eof
+#print axioms Slicec.C09.doc_lint_spans_within_lines
